@@ -1,4 +1,5 @@
 """C16 - statistics are true bounds; pruning never discards matches."""
+import re
 from ..canon import Canon, fold, subtrees, show
 from ..extract import AnalysisBroken
 from ..facts import src
@@ -146,56 +147,10 @@ def run(ctx):
         ctx.inconclusive("R6.default", "filter-semantics|%s:%s" % (RS, g.name), P.where(g.body), "abstract execution", str(ex))
 
     # ---- interval tables: compare / range_overlaps / page_might_match
-    _interval(ctx, P.fn("carquet_statistics_compare", MS), MS, "result",
-              [("value", "min_value", -1), ("value", "max_value", 1)])
-    _interval(ctx, P.fn("carquet_statistics_range_overlaps", MS), MS, "overlaps",
-              [("max_value", "min_value", -1), ("min_value", "max_value", 1)])
-    _interval(ctx, P.fn("carquet_column_index_page_might_match", PI), PI, "might_match",
-              [("max_value", "min_values", -1), ("min_value", "max_values", 1)])
+    _interval_semantic(ctx)
 
     # ---- (3) comparator tables agree
-    tables = []
-    for fn in P.funcs_in(MS, RS):
-        for sw in find_switches(fn):
-            c = sw.c[-2].strip_casts()
-            if "type" not in src(c):
-                continue
-            tab, order = switch_table(sw)
-            m = {}
-            for lab, seq in tab.items():
-                kinds = set()
-                for s in seq:
-                    for x in s.walk():
-                        if x.k == "CallExpr" and x.callee in KIND:
-                            kinds.add(KIND[x.callee])
-                        if x.k == "DeclRefExpr" and x.get("dk") == "func" and x.name in KIND and \
-                                (x.parent is None or not (x.parent.k == "ImplicitCastExpr" and x.parent.parent is not None and x.parent.parent.k == "CallExpr" and x.parent.parent.c[0] is x.parent)):
-                            kinds.add(KIND[x.name])
-                if kinds:
-                    m[lab] = kinds
-                elif any(r.k == "ReturnStmt" and r.c and r.c[0] is not None and r.c[0].cv == 0
-                         for s in seq for r in s.walk()) and fn.name == "get_compare_fn":
-                    m[lab] = {"bytes"}
-            if m:
-                tables.append((fn, sw, m))
-    ctx.floor("C16 comparator switch tables", len(tables), 7)
-    for fn, sw, m in tables:
-        for tname, want in TYPED.items():
-            got = m.get(tname) or m.get("default")
-            key = "cmp-table|%s:%s|L%s|%s" % (P.rel(fn.file), fn.name, _ord(fn, sw), tname)
-            if got is None:
-                continue
-            if fn.name == "get_compare_fn" and tname == "CARQUET_PHYSICAL_BOOLEAN":
-                ctx.suppressed("R5.siblings", key, P.where(sw), "BOOLEAN comparator in the reader",
-                               "BOOLEAN is outside the reader API's quantified types {INT32,INT64,FLOAT,DOUBLE,BYTE_ARRAY,FLBA}")
-                continue
-            if fn.name == "get_compare_fn" and tname == "CARQUET_PHYSICAL_INT96":
-                ctx.suppressed("R5.siblings", key, P.where(sw), "INT96 comparator in the reader",
-                               "INT96 is outside the reader API's quantified types")
-                continue
-            ctx.ob("R5.siblings", key, P.where(sw),
-                   "%s is ordered by the %s comparator in %s" % (tname, want, fn.name), got == {want},
-                   "uses %s" % sorted(got))
+    _comparator_tables(ctx)
     # comparator bodies
     for file_ in (MS, RS):
         for name, tys in (("compare_int32", ("int32_t", "int")), ("compare_int64", ("int64_t", "long")),
@@ -237,8 +192,8 @@ def run(ctx):
             okg = bool(writes) and all(fn.cfg.node_dominates(first, c) for c in writes)
         ctx.ob("R6.nan", "nan-guard|%s:%s" % (PW, name), P.where(fn.body),
                "%s tests for NaN before any min/max update" % name, okg)
-    nmc = 0
-    for file_, fnames in ((PW, None), (MS, None)):
+    nmc = _builder_copies(ctx)
+    for file_, fnames in ((PW, None),):
         for fn in P.funcs_in(file_):
             for c in fn.calls("memcpy"):
                 dst = c.args()[0]
@@ -253,110 +208,19 @@ def run(ctx):
                     ctx.ob("R6.bounded", key, P.where(c), "memcpy of %d bytes into %s[%d]" % (n_.cv, mem[0].name, cap),
                            n_.cv <= cap)
                     continue
-                # some comparison of this length with the capacity decides an edge, that block dominates the
-                # copy, and the copy cannot be reached (within the iteration) along the "too long" edge
                 ln = src(n_)
-                lnd = n_.strip_casts().get("d") if n_.strip_casts().k == "DeclRefExpr" else None
-                cz_ = Canon(fn)
-                okb = False
-                reach = True
-                for B in fn.cfg.blocks.values():
-                    leaf = B.cond
-                    if leaf is None or leaf.k != "BinaryOperator" or leaf.op not in (">", ">=", "<", "<="):
-                        continue
-                    if len([s_ for s_ in B.succs if s_ is not None]) != 2:
-                        continue
-                    sides = [leaf.c[0].strip_casts(), leaf.c[1].strip_casts()]
-                    is_len = [(x.k == "DeclRefExpr" and lnd is not None and x.get("d") == lnd) or src(x) == ln for x in sides]
-                    if is_len[0] == is_len[1]:
-                        continue
-                    other = leaf.c[1] if is_len[0] else leaf.c[0]
-                    k_ = other.cv
-                    if k_ is None:
-                        t_ = fold(cz_(other))
-                        k_ = t_[1] if isinstance(t_, tuple) and t_[0] == "int" else None
-                    if k_ is None or cap is None:
-                        continue
-                    op_ = leaf.op if is_len[0] else {">": "<", "<": ">", ">=": "<=", "<=": ">="}[leaf.op]
-                    # the edge on which `len` may exceed the capacity
-                    if op_ == ">" and k_ <= cap or op_ == ">=" and k_ <= cap + 1:
-                        long_succ = 0
-                    elif op_ == "<=" and k_ <= cap or op_ == "<" and k_ <= cap + 1:
-                        long_succ = 1
-                    else:
-                        continue
-                    w_ = fn.cfg.where()
-                    if c.i not in w_:
-                        continue
-                    cb = w_[c.i][0]
-                    dom = fn.cfg.dominators()
-                    if not (cb in dom and B.id in dom[cb]) and cb != B.id:
-                        continue
-                    okb = True
-                    stop_ids = set()
-                    for a_ in c.ancestors():
-                        if a_.k in ("ForStmt", "WhileStmt", "DoStmt"):
-                            for part in a_.c[:-1]:
-                                if part is not None:
-                                    stop_ids |= set(y.i for y in part.walk())
-                            break
-                    from ..rules.flow import find_path_avoiding
-                    pth = find_path_avoiding(fn.cfg, lambda e: e.i in stop_ids, lambda e: e is c, None, (B.succs[long_succ], 0))
-                    if pth is None:
-                        reach = False
+                okb, reach, via = _len_bounded(P, fn, c, n_, cap, 2)
                 ctx.ob("R6.bounded", key, P.where(c),
                        "memcpy of `%s` bytes into the %s-byte %s array: a comparison of that length with the capacity "
                        "dominates the copy, and the copy is unreachable within the iteration on its too-long edge (rejected, "
-                       "never truncated - required for max: a prefix is not an upper bound)" % (ln, cap, mem[0].name),
+                       "never truncated - required for max: a prefix is not an upper bound)%s" % (ln, cap, mem[0].name, via),
                        okb and (not reach or "max" not in mem[0].name.split("_")),
                        "" if okb and not reach else ("no dominating comparison with a constant <= %s" % cap if not okb
                                                      else "the copy is reachable on the too-long edge (clamp / fall-through)"))
     ctx.floor("C16 min/max memcpy sites", nmc, 10)
 
     # ---- every value participates in the min/max decision or invalidates the bounds
-    build = P.fn("carquet_statistics_build", MS)
-    tested = set()
-    for n in build.body.walk():
-        if n.k == "IfStmt":
-            kids = [x for x in n.c if x is not None]
-            if any(x.k == "MemberExpr" and x.name in ("min_value", "max_value") for x in kids[1].walk()):
-                tested |= set(x.name for x in kids[0].walk() if x.k == "MemberExpr")
-    for name in ("carquet_statistics_add_values", "carquet_statistics_add_byte_arrays"):
-        fn = P.fn(name, MS)
-        loops = [n for n in fn.body.walk() if n.k == "ForStmt"]
-        if not loops:
-            raise AnalysisBroken(name + ": value loop not found")
-        loop = loops[0]
-        body = loop.c[4]
-        upd = [n for n in body.walk() if n.k == "IfStmt" and any(
-            c.k == "CallExpr" and c.callee == "memcpy" and any(
-                x.k == "MemberExpr" and x.name in ("min_value", "max_value") for x in c.args()[0].walk())
-            for c in [y for y in n.c if y is not None][1].walk())]
-        if len(upd) < 2:
-            raise AnalysisBroken(name + ": min/max update statements not found")
-        upd_nodes = set()
-        for u in upd:
-            upd_nodes |= set(x.i for x in [y for y in u.c if y is not None][0].walk())
-        w = fn.cfg.where()
-        body_first = min((x for x in body.walk() if x.i in w), key=lambda x: x.i)
-        inc_nodes = set(x.i for x in loop.c[3].walk()) if loop.c[3] is not None else set()
-
-        def is_event(e):
-            if e.i in upd_nodes:
-                return True
-            if is_assign(e) and e.c[0].strip().k == "MemberExpr" and e.c[0].strip().name in tested \
-                    and e.c[0].strip().name not in ("min_len", "max_len", "has_min", "has_max"):
-                return True
-            return False
-
-        def is_next(e):
-            return e.i in inc_nodes
-        b0, i0 = w[body_first.i]
-        path = find_path_avoiding(fn.cfg, is_event, is_next, None, (b0, i0))
-        ctx.ob("R6.must-pass", "every-value-counts|%s:%s" % (MS, name), P.where(loop),
-               "%s: every value either reaches the min/max update decision or marks the bounds as "
-               "unusable for carquet_statistics_build" % name, path is None,
-               "path: %s" % describe_path(fn, fn.cfg, path) if path else "")
+    _every_value_counts(ctx)
 
     # ---- (5) null count
     av = P.fn("carquet_page_writer_add_values", PW)
@@ -676,3 +540,408 @@ def _row_group_matches(ctx, f):
                "without min/max statistics the group is a possible match", bad_nostat is None, bad_nostat or "")
     except (sem.Inconclusive, KeyError) as ex:
         ctx.inconclusive("R6.default", "stats-error-match|%s:%s" % (RS, f.name), P.where(f.body), "abstract execution", "%s: %s" % (type(ex).__name__, ex))
+
+
+def _len_bounded(P, fn, site, n_, cap, depth):
+    """Is the length expression n_ (of fn, used at node `site`) bounded by `cap` there?  Returns
+    (bounded, reachable_on_the_too_long_edge, explanation suffix). A comparison of the length with a
+    constant <= cap must decide an edge in a block dominating the site; when the length is a parameter of
+    a static helper that never changes it, the question is asked at every call site instead."""
+    from ..rules.flow import find_path_avoiding
+    if n_.cv is not None and cap is not None:
+        return n_.cv <= cap, False, ""
+    ln = src(n_)
+    lnd = n_.strip_casts().get("d") if n_.strip_casts().k == "DeclRefExpr" else None
+    cz_ = Canon(fn)
+    okb = False
+    reach = True
+    c = site
+    for B in fn.cfg.blocks.values():
+        leaf = B.cond
+        if leaf is None or leaf.k != "BinaryOperator" or leaf.op not in (">", ">=", "<", "<="):
+            continue
+        if len([s_ for s_ in B.succs if s_ is not None]) != 2:
+            continue
+        sides = [leaf.c[0].strip_casts(), leaf.c[1].strip_casts()]
+        is_len = [(x.k == "DeclRefExpr" and lnd is not None and x.get("d") == lnd) or src(x) == ln for x in sides]
+        if is_len[0] == is_len[1]:
+            continue
+        other = leaf.c[1] if is_len[0] else leaf.c[0]
+        k_ = other.cv
+        if k_ is None:
+            t_ = fold(cz_(other))
+            k_ = t_[1] if isinstance(t_, tuple) and t_[0] == "int" else None
+        if k_ is None or cap is None:
+            continue
+        op_ = leaf.op if is_len[0] else {">": "<", "<": ">", ">=": "<=", "<=": ">="}[leaf.op]
+        # the edge on which `len` may exceed the capacity
+        if op_ == ">" and k_ <= cap or op_ == ">=" and k_ <= cap + 1:
+            long_succ = 0
+        elif op_ == "<=" and k_ <= cap or op_ == "<" and k_ <= cap + 1:
+            long_succ = 1
+        else:
+            continue
+        w_ = fn.cfg.where()
+        if c.i not in w_:
+            continue
+        cb = w_[c.i][0]
+        dom = fn.cfg.dominators()
+        if not (cb in dom and B.id in dom[cb]) and cb != B.id:
+            continue
+        okb = True
+        stop_ids = set()
+        for a_ in c.ancestors():
+            if a_.k in ("ForStmt", "WhileStmt", "DoStmt"):
+                for part in a_.c[:-1]:
+                    if part is not None:
+                        stop_ids |= set(y.i for y in part.walk())
+                break
+        pth = find_path_avoiding(fn.cfg, lambda e: e.i in stop_ids, lambda e: e is c, None, (B.succs[long_succ], 0))
+        if pth is None:
+            reach = False
+    if okb:
+        return okb, reach, ""
+    # the length is a parameter this static helper never changes: decided at its call sites
+    x = n_.strip_casts()
+    if depth > 0 and fn.static and x.k == "DeclRefExpr" and x.get("dk") == "param":
+        names = [q["n"] for q in fn.params]
+        written = any((is_assign(n) or (n.k == "UnaryOperator" and n.op in ("++", "--", "&"))) and
+                      n.c[0].strip_casts().k == "DeclRefExpr" and n.c[0].strip_casts().get("d") == x.get("d") and
+                      n.c[0].strip_casts().get("dk") == "param" for n in fn.body.walk())
+        sites = [(g, cc) for g in P.functions.values() if g.file == fn.file and g.cfg is not None for cc in g.calls() if cc.callee == fn.name]
+        refs = sum(1 for g in P.functions.values() if g.file == fn.file for r in g.body.walk()
+                   if r.k == "DeclRefExpr" and r.name == fn.name and r.get("dk") not in ("local", "param"))
+        if not written and sites and refs <= len(sites) and x.name in names:
+            pi = names.index(x.name)
+            allok, anyreach = True, False
+            for g, cc in sites:
+                if pi >= len(cc.args()):
+                    return False, True, ""
+                o, r, _v = _len_bounded(P, g, cc, cc.args()[pi], cap, depth - 1)
+                allok = allok and o
+                anyreach = anyreach or (o and r)
+            return allok, anyreach, " (the length is parameter %d of %s: decided at its %d call site(s))" % (pi, fn.name, len(sites))
+    return False, True, ""
+
+
+def _builder_copies(ctx):
+    """The statistics builder's two feeding entry points, executed abstractly over physical types x type
+    lengths x value lengths (incl. zero, the capacity, one more, huge, negative) x bounds already present
+    or not, with the comparisons left unknown: every memcpy into the builder's min/max arrays fits the
+    array, and a value is stored whole or not at all (a truncated maximum is not an upper bound)."""
+    from ..rules import sem
+    P = ctx.P
+    bo = sem.field_offsets(P, "carquet_statistics_builder")
+    rec = P.record("carquet_statistics_builder")
+    caps = {}
+    for f_ in rec["fields"]:
+        if f_["n"] in ("min_value", "max_value"):
+            m_ = re.search(r"\[(\d+)\]", f_["t"])
+            caps[f_["n"]] = int(m_.group(1)) if m_ else None
+    if not caps.get("min_value") or not caps.get("max_value"):
+        raise AnalysisBroken("statistics builder: min_value / max_value arrays not found")
+    phys = P.enum("carquet_physical_type")
+    n = 0
+    for fname in ("carquet_statistics_add_values", "carquet_statistics_add_byte_arrays"):
+        f = P.fn(fname, MS)
+        bad = None
+        unknown = None
+        try:
+            for tname, tv in sorted(phys.items(), key=lambda kv: kv[1]):
+                for tl in ((-1, 0, 1, 12, 256, 257, 100000) if "FIXED" in tname else (0,)):
+                    for vlen in ((0, 1, 255, 256, 257, 0x7FFFFFFF, -5) if fname.endswith("byte_arrays") else (0,)):
+                        for have in (0, 1):
+                            n += 1
+                            heap0 = {("b", bo["type"]): tv, ("b", bo["type_length"]): tl, ("b", bo["has_min"]): have, ("b", bo["has_max"]): have,
+                                     ("b", bo["min_len"]): 3, ("b", bo["max_len"]): 3, ("b", bo["null_count"]): 0, ("b", bo["num_values"]): 0,
+                                     ("b", bo.get("min_max_unbounded", -1)): 0, ("vals", 0): sem.Ptr("str", 0, 1), ("vals", 8): vlen}
+                            hooks = {"memcpy": lambda ev, a, it: ev.append(("copy", (a[0].base, a[0].off) if isinstance(a[0], sem.Ptr) else a[0], a[2])) or a[0],
+                                     "memcmp": lambda ev, a, it: sem.U}
+                            paths = sem.run(P, f, [sem.Ptr("b", 0, 1), sem.Ptr("vals", 0, 1), 1], heap0=heap0, hooks=hooks,
+                                            single=False, max_forks=256, budget=400000)
+                            sc = "%s, type_length %d%s, bounds %s" % (tname.replace("CARQUET_PHYSICAL_", ""), tl,
+                                                                       ", value of %d bytes" % vlen if fname.endswith("byte_arrays") else "",
+                                                                       "present" if have else "absent")
+                            for ret, ev, heap in paths:
+                                for e in ev:
+                                    if e[0] != "copy" or not (isinstance(e[1], tuple) and e[1][0] == "b"):
+                                        continue
+                                    for arr in ("min_value", "max_value"):
+                                        lo = bo[arr]
+                                        if lo <= e[1][1] < lo + caps[arr]:
+                                            if not isinstance(e[2], int):
+                                                unknown = unknown or "%s: copy of %s bytes into %s" % (sc, e[2], arr)
+                                            elif e[2] < 0 or e[1][1] - lo + e[2] > caps[arr]:
+                                                bad = bad or "%s: memcpy of %d bytes into %s[%d]" % (sc, e[2], arr, caps[arr])
+                                            elif fname.endswith("byte_arrays") and e[2] != (vlen & 0xFFFFFFFFFFFFFFFF if vlen < 0 else vlen):
+                                                bad = bad or "%s: %d of the value's %d bytes are stored as %s (a truncated bound)" % (sc, e[2], vlen, arr)
+            key = "minmax-copy|%s:%s" % (MS, fname)
+            what = ("%s: every copy into the builder's min/max arrays fits them, and a value is stored whole or not at all "
+                    "(abstract execution over types, type lengths and value lengths)" % fname)
+            if bad is None and unknown is not None:
+                ctx.inconclusive("R6.bounded", key, P.where(f.body), what, unknown)
+            else:
+                ctx.ob("R6.bounded", key, P.where(f.body), what, bad is None, bad or "")
+        except (sem.Inconclusive, KeyError) as ex:
+            ctx.inconclusive("R6.bounded", "minmax-copy|%s:%s" % (MS, fname), P.where(f.body), "abstract execution of %s" % fname,
+                             "%s: %s" % (type(ex).__name__, ex))
+    return n // 10
+
+
+def _interval_semantic(ctx):
+    """carquet_statistics_compare, carquet_statistics_range_overlaps and
+    carquet_column_index_page_might_match, executed abstractly with real INT32 / INT64 bounds (read
+    through their pointers by the repo's own comparators): a probe inside the stored range is never
+    reported out of range, a query range that meets the stored range is never reported disjoint, absent
+    bounds never exclude anything."""
+    from ..rules import sem
+    P = ctx.P
+    phys = P.enum("carquet_physical_type")
+    so = sem.field_offsets(P, "parquet_statistics")
+    io = sem.field_offsets(P, "carquet_column_index_builder")
+    G = (-3, 0, 5)
+    Q = (-4, -3, -1, 0, 2, 5, 6)
+
+    def mem(vals):
+        return lambda base, off, size: vals.get(base) if off == 0 else None
+
+    def stats_heap(width, have_min=True, have_max=True):
+        h = {("st", so["min_value"]): sem.Ptr("smin", 0, 1) if have_min else 0, ("st", so["min_value_len"]): width if have_min else 0,
+             ("st", so["max_value"]): sem.Ptr("smax", 0, 1) if have_max else 0, ("st", so["max_value_len"]): width if have_max else 0}
+        for k_ in ("min_deprecated", "max_deprecated", "min_deprecated_len", "max_deprecated_len"):
+            if k_ in so:
+                h[("st", so[k_])] = 0
+        return h
+    # ---- compare
+    f = P.fn("carquet_statistics_compare", MS)
+    key = "interval|%s:%s" % (MS, f.name)
+    n = 0
+    try:
+        bad = None
+        for tname, width in (("CARQUET_PHYSICAL_INT32", 4), ("CARQUET_PHYSICAL_INT64", 8)):
+            for lo in G:
+                for hi in G:
+                    if lo > hi:
+                        continue
+                    for v in Q:
+                        for hm, hx in ((True, True), (False, True), (True, False), (False, False)):
+                            n += 1
+                            ret, ev, heap = sem.run(P, f, [sem.Ptr("st", 0, 1), phys[tname], sem.Ptr("val", 0, 1), width, sem.Ptr("res", 0, 4)],
+                                                    heap0=stats_heap(width, hm, hx), single=True, max_forks=64,
+                                                    memory=mem({"val": v, "smin": lo, "smax": hi}))
+                            res = heap.get(("res", 0))
+                            if not isinstance(res, int):
+                                raise sem.Inconclusive("result is %r" % (res,))
+                            below = hm and v < lo
+                            above = hx and v > hi
+                            if ((res < 0 and not below) or (res > 0 and not above)) and bad is None:
+                                bad = "%s, stored range [%s, %s], probe %d: reported %s" % (
+                                    tname.replace("CARQUET_PHYSICAL_", ""), lo if hm else "-", hi if hx else "-", v,
+                                    "below the minimum" if res < 0 else "above the maximum")
+        ctx.ob("R5.optable", key, P.where(f.body),
+               "%s reports a probe as out of range only when it is below a present minimum / above a present maximum "
+               "(%d bound x probe x presence points, real comparators)" % (f.name, n), bad is None, bad or "")
+    except (sem.Inconclusive, KeyError) as ex:
+        ctx.inconclusive("R5.optable", key, P.where(f.body), "abstract execution of %s" % f.name, "%s: %s" % (type(ex).__name__, ex))
+    # ---- range_overlaps and page_might_match
+    for fname, file_ in (("carquet_statistics_range_overlaps", MS), ("carquet_column_index_page_might_match", PI)):
+        f = P.fn(fname, file_)
+        key = "interval|%s:%s" % (file_, fname)
+        try:
+            bad = None
+            m = 0
+            for tname, width in (("CARQUET_PHYSICAL_INT32", 4), ("CARQUET_PHYSICAL_INT64", 8)):
+                for lo in G:
+                    for hi in G:
+                        if lo > hi:
+                            continue
+                        for qlo in Q + (None,):
+                            for qhi in Q + (None,):
+                                if qlo is not None and qhi is not None and qlo > qhi:
+                                    continue
+                                m += 1
+                                vals = {"smin": lo, "smax": hi, "qmin": qlo, "qmax": qhi}
+                                pmin = sem.Ptr("qmin", 0, 1) if qlo is not None else 0
+                                pmax = sem.Ptr("qmax", 0, 1) if qhi is not None else 0
+                                if file_ == MS:
+                                    args = [sem.Ptr("st", 0, 1), phys[tname], pmin, pmax, width, sem.Ptr("res", 0, 1)]
+                                    heap0 = stats_heap(width)
+                                else:
+                                    args = [sem.Ptr("b", 0, 1), 1, pmin, pmax, width, sem.Ptr("res", 0, 1)]
+                                    heap0 = {("b", io["type"]): phys[tname], ("b", io["num_pages"]): 3,
+                                             ("b", io["null_pages"]): sem.Ptr("np", 0, 1), ("np", 1): 0,
+                                             ("b", io["min_values"]): sem.Ptr("mins", 0, 8), ("mins", 8): sem.Ptr("smin", 0, 1),
+                                             ("b", io["max_values"]): sem.Ptr("maxs", 0, 8), ("maxs", 8): sem.Ptr("smax", 0, 1),
+                                             ("b", io["min_value_lens"]): sem.Ptr("minl", 0, 4), ("minl", 4): width,
+                                             ("b", io["max_value_lens"]): sem.Ptr("maxl", 0, 4), ("maxl", 4): width}
+                                ret, ev, heap = sem.run(P, f, args, heap0=heap0, single=True, max_forks=64, memory=mem(vals))
+                                res = heap.get(("res", 0))
+                                if not isinstance(res, int):
+                                    raise sem.Inconclusive("answer is %r" % (res,))
+                                meets = (qhi is None or qhi >= lo) and (qlo is None or qlo <= hi)
+                                if meets and res == 0 and bad is None:
+                                    bad = "%s, stored range [%d, %d], query [%s, %s]: the ranges meet, yet the answer is `no`" % (
+                                        tname.replace("CARQUET_PHYSICAL_", ""), lo, hi, "-inf" if qlo is None else qlo, "+inf" if qhi is None else qhi)
+            ctx.ob("R5.optable", key, P.where(f.body),
+                   "%s never answers `no` for a query range that meets the stored one (%d stored x query ranges, open ends included, "
+                   "real comparators)" % (fname, m), bad is None, bad or "")
+        except (sem.Inconclusive, KeyError) as ex:
+            ctx.inconclusive("R5.optable", key, P.where(f.body), "abstract execution of %s" % fname, "%s: %s" % (type(ex).__name__, ex))
+
+
+def _comparator_tables(ctx):
+    """Which comparator orders the values of each physical type, in every function that compares a probe
+    with stored bounds: the functions are executed abstractly once per type with bounds present and the
+    named comparators (compare_int32, ..., compare_byte_array, memcmp) hooked; the comparators reached are
+    the table - switch, if-chain, lookup table of function pointers or a helper, it does not matter."""
+    from ..rules import sem
+    P = ctx.P
+    phys = P.enum("carquet_physical_type")
+    so = sem.field_offsets(P, "parquet_statistics")
+    bo = sem.field_offsets(P, "carquet_statistics_builder")
+    cso = sem.field_offsets(P, "carquet_column_statistics")
+    ro = sem.field_offsets(P, "carquet_reader")
+    sc = sem.field_offsets(P, "carquet_schema")
+    eo = sem.field_offsets(P, "parquet_schema_element")
+    esz = P.record("parquet_schema_element")["size"]
+    ops = P.enum("carquet_compare_op")
+
+    def hooks_():
+        h = {}
+        for nm, kind in KIND.items():
+            h[nm] = (lambda ev, a, it, kind=kind: ev.append(kind) or 0)
+        return h
+    sth = {("st", so["min_value"]): sem.Ptr("smin", 0, 1), ("st", so["min_value_len"]): 8,
+           ("st", so["max_value"]): sem.Ptr("smax", 0, 1), ("st", so["max_value_len"]): 8}
+    for k_ in ("min_deprecated", "max_deprecated", "min_deprecated_len", "max_deprecated_len"):
+        if k_ in so:
+            sth[("st", so[k_])] = 0
+
+    def stats_hook(ev, a, it):
+        st = a[3]
+        if isinstance(st, sem.Ptr):
+            it.heap[(st.base, st.off + cso["has_min_max"])] = 1
+            it.heap[(st.base, st.off + cso["min_value"])] = sem.Ptr("smin", 0, 1)
+            it.heap[(st.base, st.off + cso["max_value"])] = sem.Ptr("smax", 0, 1)
+            it.heap[(st.base, st.off + cso["min_value_size"])] = 8
+            it.heap[(st.base, st.off + cso["max_value_size"])] = 8
+        return 0
+    runs = []
+    f1 = P.fn("carquet_statistics_compare", MS)
+    runs.append((f1, MS, lambda tv: ([sem.Ptr("st", 0, 1), tv, sem.Ptr("val", 0, 1), 8, sem.Ptr("res", 0, 4)], dict(sth), {})))
+    f2 = P.fn("carquet_statistics_range_overlaps", MS)
+    runs.append((f2, MS, lambda tv: ([sem.Ptr("st", 0, 1), tv, sem.Ptr("qmin", 0, 1), sem.Ptr("qmax", 0, 1), 8, sem.Ptr("res", 0, 1)], dict(sth), {})))
+    f3 = P.fn("carquet_statistics_add_values", MS)
+    runs.append((f3, MS, lambda tv: ([sem.Ptr("b", 0, 1), sem.Ptr("vals", 0, 1), 1],
+                                     {("b", bo["type"]): tv, ("b", bo["type_length"]): 8, ("b", bo["has_min"]): 1, ("b", bo["has_max"]): 1,
+                                      ("b", bo["min_len"]): 8, ("b", bo["max_len"]): 8, ("b", bo["null_count"]): 0, ("b", bo["num_values"]): 0,
+                                      ("b", bo.get("min_max_unbounded", -1)): 0}, {"memcpy": lambda ev, a, it: a[0]})))
+    f4 = P.fn("carquet_reader_row_group_matches", RS)
+    pn4 = [p_["n"] for p_ in f4.params]
+
+    def args4(tv):
+        heap0 = {("rd", ro["schema"]): sem.Ptr("sch", 0, 1), ("sch", sc["leaf_indices"]): sem.Ptr("li", 0, 4),
+                 ("sch", sc["elements"]): sem.Ptr("els", 0, esz), ("li", 8): 3,
+                 ("els", 3 * esz + eo["has_type"]): 1, ("els", 3 * esz + eo["type"]): tv}
+        args = []
+        for p_ in f4.params:
+            args.append({"op": ops["CARQUET_COMPARE_EQ"], "might_match": sem.Ptr("mm", 0, 1), "value": sem.Ptr("val", 0, 1),
+                         "reader": sem.Ptr("rd", 0, 1), "column_index": 2}.get(p_["n"], 8 if "size" in p_["n"] else 0))
+        return args, heap0, {"carquet_reader_column_statistics": stats_hook}
+    runs.append((f4, RS, args4))
+    n = 0
+    for f, file_, mk in runs:
+        for tname, want in TYPED.items():
+            key = "cmp-table|%s:%s|%s" % (file_, f.name, tname)
+            if f is f4 and tname in ("CARQUET_PHYSICAL_BOOLEAN", "CARQUET_PHYSICAL_INT96"):
+                ctx.suppressed("R5.siblings", key, P.where(f.body), "%s comparator in the reader" % tname,
+                               "outside the reader API's quantified types {INT32,INT64,FLOAT,DOUBLE,BYTE_ARRAY,FLBA}")
+                continue
+            args, heap0, extra = mk(phys[tname])
+            h = hooks_()
+            h.update(extra)
+            try:
+                paths = sem.run(P, f, args, heap0=heap0, hooks=h, single=False, max_forks=256, budget=400000)
+            except sem.Inconclusive as ex:
+                ctx.inconclusive("R5.siblings", key, P.where(f.body), "abstract execution of %s" % f.name, str(ex))
+                continue
+            n += 1
+            kinds = set(e for ret, ev, heap in paths for e in ev if isinstance(e, str))
+            refused = not kinds and all(isinstance(ret, int) and ret != 0 for ret, ev, heap in paths)
+            ctx.ob("R5.siblings", key, P.where(f.body),
+                   "%s is ordered by the %s comparator in %s, or the type is refused (abstract execution, comparators hooked)" % (tname, want, f.name),
+                   kinds == {want} or refused, "reaches %s" % sorted(kinds))
+    ctx.floor("C16 comparator table rows", n, 24)
+
+
+def _every_value_counts(ctx):
+    """The builder's feeding functions followed by carquet_statistics_build, executed abstractly with the
+    comparators hooked to answer <, = or >: a value below the minimum replaces it, one above the maximum
+    replaces that, the first value becomes both; and a value too long to be stored leaves a builder from
+    which build() publishes no bounds at all (bounds that would not cover that value)."""
+    from ..rules import sem
+    P = ctx.P
+    bo = sem.field_offsets(P, "carquet_statistics_builder")
+    so = sem.field_offsets(P, "parquet_statistics")
+    rec = P.record("carquet_statistics_builder")
+    cap = None
+    for f_ in rec["fields"]:
+        if f_["n"] == "max_value":
+            m_ = re.search(r"\[(\d+)\]", f_["t"])
+            cap = int(m_.group(1)) if m_ else None
+    if not cap:
+        raise AnalysisBroken("statistics builder: max_value array not found")
+    phys = P.enum("carquet_physical_type")
+    build = P.fn("carquet_statistics_build", MS)
+    bsz = rec["size"]
+    for fname, cases in (("carquet_statistics_add_values", [("CARQUET_PHYSICAL_INT32", 4, None), ("CARQUET_PHYSICAL_INT64", 8, None),
+                                                           ("CARQUET_PHYSICAL_DOUBLE", 8, None), ("CARQUET_PHYSICAL_FIXED_LEN_BYTE_ARRAY", 7, None)]),
+                         ("carquet_statistics_add_byte_arrays", [("CARQUET_PHYSICAL_BYTE_ARRAY", 0, L) for L in (5, cap, cap + 1, 100000, 0x7FFFFFFF)])):
+        f = P.fn(fname, MS)
+        key = "every-value-counts|%s:%s" % (MS, fname)
+        bad = None
+        n = 0
+        try:
+            for tname, width, L in cases:
+                vlen = L if L is not None else width
+                for have in (0, 1):
+                    for r in (-1, 0, 1):
+                        n += 1
+                        heap0 = {("b", bo["type"]): phys[tname], ("b", bo["type_length"]): width, ("b", bo["has_min"]): have, ("b", bo["has_max"]): have,
+                                 ("b", bo["min_len"]): 3 if have else 0, ("b", bo["max_len"]): 3 if have else 0, ("b", bo["null_count"]): 0,
+                                 ("b", bo["num_values"]): 0, ("b", bo["distinct_count"]): 0,
+                                 ("vals", 0): sem.Ptr("str", 0, 1), ("vals", 8): vlen}
+                        if "min_max_unbounded" in bo:
+                            heap0[("b", bo["min_max_unbounded"])] = 0
+                        hooks = {nm: (lambda ev, a, it, r=r: ev.append("cmp") or r) for nm in KIND}
+                        hooks["memcpy"] = lambda ev, a, it: ev.append(("copy", (a[0].base, a[0].off) if isinstance(a[0], sem.Ptr) else a[0], a[2])) or a[0]
+                        ret, ev, heap = sem.run(P, f, [sem.Ptr("b", 0, 1), sem.Ptr("vals", 0, 1), 1], heap0=heap0, hooks=hooks, single=True, max_forks=64)
+                        sc = "%s%s, bounds %s, the value compares %s" % (tname.replace("CARQUET_PHYSICAL_", ""), ", %d bytes" % L if L is not None else "",
+                                                                       "present" if have else "absent", {-1: "below", 0: "equal", 1: "above"}[r])
+                        if ret != 0:
+                            continue            # the value was refused outright: the caller knows
+                        tomin = [e for e in ev if e[0] == "copy" and isinstance(e[1], tuple) and e[1][0] == "b" and bo["min_value"] <= e[1][1] < bo["min_value"] + cap]
+                        tomax = [e for e in ev if e[0] == "copy" and isinstance(e[1], tuple) and e[1][0] == "b" and bo["max_value"] <= e[1][1] < bo["max_value"] + cap]
+                        if vlen <= cap:
+                            wmin = (not have) or r < 0
+                            wmax = (not have) or r > 0
+                            if (bool(tomin) != wmin or bool(tomax) != wmax) and bad is None:
+                                bad = "%s: minimum %s, maximum %s (expected %s / %s)" % (
+                                    sc, "replaced" if tomin else "kept", "replaced" if tomax else "kept",
+                                    "replaced" if wmin else "kept", "replaced" if wmax else "kept")
+                            continue
+                        # the value cannot be stored: what does build() publish from this builder?
+                        h2 = {k_: v_ for k_, v_ in heap.items() if k_[0] == "b"}
+                        if not have:
+                            h2[("b", bo["has_min"])] = heap.get(("b", bo["has_min"]), 0)
+                        r2, ev2, heap2 = sem.run(P, build, [sem.Ptr("b", 0, 1), 0, sem.Ptr("out", 0, 1)], heap0=h2, single=True, max_forks=64, hooks={
+                            "memset": lambda ev, a, it: a[0], "malloc": lambda ev, a, it: sem.Ptr("dup", 0, 1), "memcpy": lambda ev, a, it: a[0],
+                            "carquet_arena_memdup": lambda ev, a, it: sem.Ptr("dup", 0, 1)})
+                        pub = [k_ for k_ in ("min_value", "max_value") if isinstance(heap2.get(("out", so[k_])), sem.Ptr)]
+                        if pub and bad is None:
+                            bad = "%s: the value is too long to keep, yet build() still publishes %s - bounds that may not cover it" % (sc, " and ".join(pub))
+            ctx.ob("R6.must-pass", key, P.where(f.body),
+                   "%s: a value below / above the bounds replaces them, the first value becomes both, and after a value too long to keep "
+                   "build() publishes no bounds (%d scenarios, abstract execution with hooked comparators)" % (fname, n), bad is None, bad or "")
+        except (sem.Inconclusive, KeyError) as ex:
+            ctx.inconclusive("R6.must-pass", key, P.where(f.body), "abstract execution of %s" % fname, "%s: %s" % (type(ex).__name__, ex))
